@@ -463,45 +463,69 @@ def fs_sig(c, j):
 # ------------------------------------------------------------------------------------------------
 
 STREAMS = {
-    "table": dict(mod="Sys.DescTable", case=table_coq_case, oracle=table_oracle, sig=table_sig, shard=150),
-    "fs": dict(mod="Sys.FsModel", case=fs_coq_case, oracle=fs_oracle, sig=fs_sig, shard=400),
-    "readdir": dict(mod="Sys.Dirent", case=rd_coq_case, oracle=rd_oracle, sig=rd_sig, shard=400, dirs=rd_dir_def, prelude=PACK_PRELUDE),
+    "table": dict(mod="Sys.DescTable", case=table_coq_case, oracle=table_oracle, sig=table_sig, shard=50),
+    "fs": dict(mod="Sys.FsModel", case=fs_coq_case, oracle=fs_oracle, sig=fs_sig, shard=100),
+    "readdir": dict(mod="Sys.Dirent", case=rd_coq_case, oracle=rd_oracle, sig=rd_sig, shard=60, dirs=rd_dir_def, prelude=PACK_PRELUDE),
 }
 
 
-def eval_stream(ck, name, cases):
-    """model evaluation in Coq; returns {case index: first differing op / code} or None on failure"""
+def shard_text(name, shard):
     st = STREAMS[name]
-    mism = {}
-    SH = st["shard"]
-    for s in range(0, len(cases), SH):
-        shard = cases[s:s + SH]
-        prelude, render = st.get("prelude", ""), st["case"]
-        if "dirs" in st:   # share one definition per directory between the scripts that read it
-            names = {}
-            for c in shard:
-                if c["dir"] not in names:
-                    names[c["dir"]] = "dir_%d" % len(names)
-                    prelude += "Definition %s : list dirent := %s.\n" % (names[c["dir"]], st["dirs"](c))
-            render = lambda c: st["case"](c, names[c["dir"]])
-        v = ("From Verif Require Import Lib.GoInt %s.\nOpen Scope Z_scope.\n" % st["mod"] + prelude +
-             "Definition cases : list case := [\n" + ";\n".join(render(c) for c in shard) + "].\n"
-             "Definition M := Eval vm_compute in mismatches 0 cases.\nPrint M.\n")
-        rc, o = coq_eval("c16_%s_%d" % (name, s), v)
+    prelude, render = st.get("prelude", ""), st["case"]
+    if "dirs" in st:   # share one definition per directory between the scripts that read it
+        names = {}
+        for c in shard:
+            if c["dir"] not in names:
+                names[c["dir"]] = "dir_%d" % len(names)
+                prelude += "Definition %s : list dirent := %s.\n" % (names[c["dir"]], st["dirs"](c))
+        render = lambda c: st["case"](c, names[c["dir"]])
+    return ("From Verif Require Import Lib.GoInt %s.\nOpen Scope Z_scope.\n" % st["mod"] + prelude +
+            "Definition cases : list case := [\n" + ";\n".join(render(c) for c in shard) + "].\n"
+            "Definition M := Eval vm_compute in mismatches 0 cases.\nPrint M.\n")
+
+
+def eval_streams(ck, by):
+    """Evaluate every case in its Coq model (vm_compute), shards in parallel.
+    Returns {stream: {case index: first differing op / code}} or None on failure."""
+    from concurrent.futures import ThreadPoolExecutor
+    jobs = []
+    for name, cases in by.items():
+        SH = STREAMS[name]["shard"]
+        for s in range(0, len(cases), SH):
+            jobs.append((name, s, cases[s:s + SH]))
+    def work(job):
+        name, s, shard = job
+        return coq_eval("c16_%s_%d" % (name, s), shard_text(name, shard))
+    with ThreadPoolExecutor(max_workers=8) as ex:
+        results = list(ex.map(work, jobs))
+    mism = {name: {} for name in by}
+    for (name, s, shard), (rc, o) in zip(jobs, results):
         lst = parse_zlist(o, "M")
         if rc != 0 or lst is None:
             ck.violation("model-eval", {"kind": "model-eval", "stream": name}, {"rc": rc, "out": o[-2000:]}, no_input=True)
             return None
         for i in range(0, len(lst), 2):
-            mism[s + lst[i]] = lst[i + 1]
+            mism[name][s + lst[i]] = lst[i + 1]
     return mism
+
+
+def eval_stream(ck, name, cases):
+    r = eval_streams(ck, {name: cases})
+    return None if r is None else r[name]
 
 
 def run(tier, seed):
     ck = Check("C16", tier, seed)
     ck.trusted += ["hand transcription of internal/descriptor/table.go in coq/Sys/DescTable.v (generic, slice based: outside go2coq), tied by the table stream incl. final masks words and len(items)",
-                   "harness/c16 (Go) and checks/c16.py (case conversion, oracles)"]
-    ck.assumptions += ["descriptor table: keys are int32, a run stops at the first Go panic (only Insert on a table holding all 2^31 keys)"]
+                   "hand transcription of DirentCache.Read/cachedDirents (internal/sys/fs.go) and fdReaddirFn/maxDirents/writeDirents/writeDirent (imports/wasi_snapshot_preview1/fs.go) in coq/Sys/Dirent.v, tied by the readdir stream (errno, bufused and every byte of the buffer, through the real host function)",
+                   "coq/Sys/FsModel.v is a reference model (not a transcription) of path_open/fd_*/path_* as implemented by wazero over sysfs over the Linux kernel; tied by the fs stream (errno, outputs, opened fd numbers, final host tree)",
+                   "tools/go2coq for the constants DirentSize, largestDirent, errno numbers, O_*/FD_APPEND/FILETYPE_* (regenerated from internal/wasip1 and imports/wasi_snapshot_preview1)",
+                   "the host kernel, the Go os package and the temp file system are the other half of the implementation under the fs and readdir streams",
+                   "harness/c16 (Go, proxy guest module) and checks/c16.py (case conversion, oracles)"]
+    ck.assumptions += ["descriptor table: keys are int32, a run stops at the first Go panic (only Insert on a table holding all 2^31 keys)",
+                       "fd_readdir: the directory does not change while it is read; sys.File.Readdir(n) returns min(n, remaining) entries; fewer than 2^62 entries; names shorter than 2^32-48 bytes; the buffer lies inside guest memory",
+                       "fs model: one mount, no symlinks/hard links, paths are clean relative names, stdio descriptors only take part in close/renumber, creating/removing/renaming the mount point itself is unmodelled",
+                       "fs model follows wazero where it departs from POSIX: pread/pwrite with a negative offset -> EIO, pwrite on an O_APPEND descriptor -> EIO, mkdir below a file -> ENOENT, rename of a path onto the identical path succeeds even if it does not exist"]
     proofs_ok = ck.proofs()
     quick = tier == "quick"
     n_table = 150 if quick else 4000
@@ -545,11 +569,12 @@ def run(tier, seed):
                         "the Coq model (vm_compute) and, independently, by a Python oracle stating the property on the observations; "
                         "non-trivial = more than two operations; distinct by (stream, ops)")
     reported = set()
+    allmism = eval_streams(ck, by)
+    if allmism is None:
+        return ck.finish()
     for name, cases in by.items():
         st = STREAMS[name]
-        mism = eval_stream(ck, name, cases)
-        if mism is None:
-            return ck.finish()
+        mism = allmism[name]
         ck.extra["model_mismatches_" + name] = len(mism)
         for idx, c in enumerate(cases):
             why = st["oracle"](c)
